@@ -782,3 +782,26 @@ theorem same_nodes_entered (exts : List When) (t : Tree) (e : Nat) (he : e < ext
 example : ((restrict .main (walkabout [.inner] exTree).1).filter (fun x => x.1 = .visit)).map (·.2) = [0, 1, 2] := by decide
 
 end Visitor
+
+namespace Visitor
+
+/-- **order** on exit when the main visitor's departure is skipped (`SkipNode` / `SkipDeparture`, i.e.
+`depart(ob, extensions_only=True)`): the extensions still leave in the documented order BEFORE, INNER, AFTER, OUTTER. -/
+theorem order_depart_ext_only (exts : List When) (id : Nat) :
+    departEvents exts id true =
+      evs .depart id (extsOf exts .before) ++ evs .depart id (extsOf exts .inner)
+        ++ evs .depart id (extsOf exts .after) ++ evs .depart id (extsOf exts .outter) := by
+  simp [departEvents, evs]
+
+/-- the main visitor's departure is the only difference between the two exit blocks -/
+theorem depart_ext_only_is_filter (exts : List When) (id : Nat) :
+    departEvents exts id true = (departEvents exts id false).filter (fun e => !decide (e.who = Who.main)) := by
+  have h : ∀ l : List Nat, (evs .depart id l).filter (fun e => !decide (e.who = Who.main)) = evs .depart id l := by
+    intro l
+    induction l with
+    | nil => simp [evs]
+    | cons x xs ih => simp only [evs, List.map_cons] at ih ⊢; simp
+  simp only [departEvents, List.filter_append, h]
+  simp
+
+end Visitor
